@@ -261,3 +261,32 @@ Example C20_example_restart :
               stop i (refs st) = Some f /\ startableb Composite (ex_spec 5) f = true /\
               startableb Composite ex_bad_spec f = false /\ crd_passesb Composite CrdNoStatus = false.
 Proof. vm_compute. eexists. eexists. repeat split. Qed.
+
+(* ---- 7. restarts and the hook client metrics ------------------------------------------- *)
+(* Every start of a hosted controller registers the collectors of its (controller, hook
+   type, url) triples.  For any sequence of registrations -- repeats included, at any
+   time -- registration never fails ... *)
+Theorem C20_metrics_never_fails : forall h e, moutcome_of (mstep (mrun minit h) e) = ROk.
+Proof. exact metrics_never_fails. Qed.
+Print Assumptions C20_metrics_never_fails.
+
+(* ... every registration yields a collector ... *)
+Theorem C20_metrics_always_a_collector : forall h k,
+  exists id, mcollector_of (mstep (mrun minit h) (MReg k)) = Some id.
+Proof. exact metrics_always_a_collector. Qed.
+Print Assumptions C20_metrics_always_a_collector.
+
+(* ... and a repeated registration gets the very collector of the first one, whatever
+   happened in between *)
+Theorem C20_metrics_same_collector : forall h1 h2 k id,
+  mcollector_of (mstep (mrun minit h1) (MReg k)) = Some id ->
+  mcollector_of (mstep (mrun minit (h1 ++ MReg k :: h2)%list) (MReg k)) = Some id.
+Proof. exact metrics_same_collector. Qed.
+Print Assumptions C20_metrics_same_collector.
+
+Example C20_metrics_example :
+  let h := [MReg "c/sync/u"; MReg "c/finalize/u"; MElapse; MReg "d/sync/u"] in
+  mcollector_of (mstep (mrun minit h) (MReg "c/finalize/u")) = Some 1%Z /\
+  mcollector_of (mstep (mrun minit h) (MReg "e/sync/u")) = Some 3%Z /\
+  m_registry (mrun minit h) = ["d/sync/u"; "c/finalize/u"; "c/sync/u"].
+Proof. vm_compute. repeat split. Qed.
